@@ -75,6 +75,29 @@ def absorb(v, res, rule, level_keys=True):
         v.violation(viol["signature"], viol["what"], viol["replay"], no_input=(":model-assumption:" in viol["signature"]))
 
 
+def hyperb_tie(v, pid, tier, seed, theorem):
+    """The batch-level hyper model (Hyper/HyperBatch.v) against balloon/hyper: tables, root hashes, searches and
+    re-opened trees of the `hyperb` command.  Used by every property whose theorems speak about that model."""
+    s, res = harness(v, pid, "core", "hyperb", tier, seed)
+    try:
+        st = res.get("stats", {})
+        v.coverage.setdefault("distribution", {}).update({"hyperb_" + k: n for k, n in st.items()})
+        v.coverage["evaluations"] = v.coverage.get("evaluations", 0) + st.get("evaluations", 0)
+        for viol in (res.get("violations") or []):
+            if viol["signature"].startswith(pid):
+                v.violation(viol["signature"], viol["what"], viol["replay"])
+            else:
+                v.violation("%s:hyper-batch-level:%s" % (pid, viol["signature"]), viol["what"], viol["replay"])
+        mism = model_compare(v, s, res)
+        v.coverage.setdefault("model_vs_impl_mismatches_hyperb", mism)
+        if mism != "[]":
+            v.violation("%s:correspondence:hyperb" % pid,
+                        "the batch-level hyper model and balloon/hyper disagree (case, [(step, code)]; code 1 root hash, 2-4 store/tiles/cache tables, 5 search value, 6 search audit path, 7+ reopen): %s" % mism[:300],
+                        dict(kind="correspondence", theorem=theorem, mismatches=mism, seed=seed, tier=tier), no_input=True)
+    finally:
+        s.cleanup()
+
+
 def node_harness(v, pid, cmd, tier, seed, rule, timeout=3000):
     """Run a node-level (RocksDB/raft) harness command; a death of the harness process while a scenario is
     noted is a violation (a panic inside a goroutine of the code under test cannot be recovered)."""
